@@ -206,7 +206,10 @@ def perform(m, defn, theta, x0, plan, rng, seed, max_steps=250):
             g = None
             tin = (t_start + horizon) if rng.random() < 0.7 else np.float64(t_start + horizon)
         s = (seed * 1000 + k) % (2 ** 31)
-        rec_run = {"plan": dict(p), "seed": s, "horizon": horizon, "grid": None if g is None else [float(v) for v in g]}
+        # the horizon the USER asked for: the scalar, or the last requested time
+        asked = float(g[-1]) if g is not None else float(tin)
+        rec_run = {"plan": dict(p), "seed": s, "horizon": horizon, "grid": None if g is None else [float(v) for v in g],
+                   "asked_final": asked}
         with instrument.recording() as rec:
             np.random.seed(s)
             signal.signal(signal.SIGALRM, _alarm)
@@ -277,7 +280,9 @@ def to_trace_run(run, defn):
     # what the USER asked for (the option handed to solve_stochast), not what reached the stepper
     want_exact = bool(run["plan"]["exact"])
     parallel = bool(run["plan"].get("parallel"))
-    times = {rec["t0"], rec["finalT"]}
+    # the horizon of the run is the one the user asked for, not the one that reached the stepper
+    final = run.get("asked_final", rec["finalT"])
+    times = {rec["t0"], final}
     if run["grid"]:
         times |= set(run["grid"])
     evs = []
@@ -336,7 +341,7 @@ def to_trace_run(run, defn):
         for e in evs:
             if "_t" in e:
                 e["tr"] = rank[e.pop("_t")]
-        return {"exact": want_exact, "x0": _ints(rec["x0"]), "t0r": rank[rec["t0"]], "horizonr": rank[rec["finalT"]],
+        return {"exact": want_exact, "x0": _ints(rec["x0"]), "t0r": rank[rec["t0"]], "horizonr": rank[final],
                 "checkdraws": bool(checkdraws and want_exact and not parallel), "events": evs, "truncated": True}, None, None
     evs.append({"ev": "End"})
     out = run["out"]
@@ -373,7 +378,7 @@ def to_trace_run(run, defn):
         if "_t" in e:
             e["tr"] = rank[e.pop("_t")]
     x0 = _ints(rec["x0"])
-    tr = {"exact": want_exact, "x0": x0, "t0r": rank[rec["t0"]], "horizonr": rank[rec["finalT"]],
+    tr = {"exact": want_exact, "x0": x0, "t0r": rank[rec["t0"]], "horizonr": rank[final],
           "checkdraws": bool(checkdraws and want_exact and not parallel), "events": evs}
     return tr, None, None
 
